@@ -1,6 +1,8 @@
 package sim
 
 import (
+	"os"
+	"path/filepath"
 	"time"
 
 	"github.com/zenon-network/go-zenon/chain/genesis"
@@ -137,5 +139,49 @@ func (w *World) Close() {
 	}
 	for i := len(w.restore) - 1; i >= 0; i-- {
 		w.restore[i]()
+	}
+}
+
+// CloneStopped starts a new node on a copy of the database directory of a stopped node.
+func (w *World) CloneStopped(template *Node, name string) *Node {
+	if !template.stopped {
+		panic("CloneStopped: template still running")
+	}
+	dir, err := os.MkdirTemp("", "simclone-")
+	if err != nil {
+		panic(err)
+	}
+	entries, err := os.ReadDir(template.Dir)
+	if err != nil {
+		panic(err)
+	}
+	for _, e := range entries {
+		if e.IsDir() || e.Name() == "LOCK" {
+			continue
+		}
+		data, err := os.ReadFile(filepath.Join(template.Dir, e.Name()))
+		if err != nil {
+			panic(err)
+		}
+		if err := os.WriteFile(filepath.Join(dir, e.Name()), data, 0o644); err != nil {
+			panic(err)
+		}
+	}
+	n, err := NewNode(genesis.NewGenesis(w.Cfg), w.Keys, NodeOpts{Name: name, Dir: dir})
+	if err != nil {
+		panic(err)
+	}
+	w.Nodes = append(w.Nodes, n)
+	return n
+}
+
+// Drop destroys one node and forgets it.
+func (w *World) Drop(n *Node) {
+	n.Destroy()
+	for i, x := range w.Nodes {
+		if x == n {
+			w.Nodes = append(w.Nodes[:i], w.Nodes[i+1:]...)
+			return
+		}
 	}
 }
